@@ -48,6 +48,7 @@ struct State {
   bool log_sizes = false;
   std::vector<size_t> size_log;          // every requested size
   std::vector<size_t> granted_log;       // sizes actually granted
+  bool index_blocks = false;             // keep an address index of live blocks (for serial_containing)
   bool log_frees = false;
   std::vector<uint64_t> freed_serials;   // serial of every block released (when log_frees)
 };
@@ -65,8 +66,10 @@ std::vector<BlockInfo> live();
 // serial of the live block whose user pointer is p, or 0 if p is not a live block
 uint64_t serial_of(const void* p);
 size_t size_of(const void* p);
-// O(1): serial stored in the header of a block known to be live (undefined for anything else)
-uint64_t peek_serial(const void* p);
+// serial of the live block whose user range [ptr, ptr+size) contains p (p need not be the start of the block:
+// nothing in the public API says an item pointer is one), or 0.  Needs g.index_blocks set before the blocks
+// of interest are allocated; O(log live blocks).
+uint64_t serial_containing(const void* p);
 // FNV hash over (ptr, size, bytes) of every live block, in allocation order
 uint64_t image_hash();
 // byte snapshot of all live blocks (for before/after comparison)
